@@ -37,7 +37,9 @@ def handle1 (op : String) (args : List Sexp) : Option String := do
       match ← Val.ofSexp as, ← Val.ofSexp kw with
       | .list as, .dict kw => pure (reply (callLifted (recorderNamed top) top as kw))
       | _, _ => Option.none
-  | "cally", [Sexp.atom top, as, kw] | "callz", [Sexp.atom top, as, kw] | "callq", [Sexp.atom top, as, kw] =>
+  | "cally", [Sexp.atom top, as, kw] | "callz", [Sexp.atom top, as, kw] | "callq", [Sexp.atom top, as, kw]
+  | "callr", [Sexp.atom top, as, kw] =>
+      -- (callr, round k6: as callq with a range key - a sub-dict for dictattr - and the EMPTY string as a key, which the wire cannot spell)
       -- (callq: every dict is one of the classes the `loop` factory adds - dictattr / Dict / OrderedDict / dict - with keys on which
       -- these classes overload `__getitem__`; a lifted function reads them as plain mappings)
       -- the same call again: the harness spells the dict keys of the companions differently from those of the looped argument
